@@ -28,8 +28,16 @@ def respell(roots, rnd, root):
     return [p.replace("/", "//", 1) for p in roots]
 
 
-def pick_roots(tree, rnd):
+def pick_roots(tree, rnd, overlap=False):
     roots, rec = pick_roots0(tree, rnd)
+    if overlap and rnd.random() < 0.3:
+        # overlapping file arguments of `update`: a directory and a file beneath it, the same file twice in two spellings
+        # (fix a048f63a: a NEW path named twice was archived twice)
+        files, dirs = tree.files(), tree.dirs()
+        if files:
+            f = rnd.choice(files)
+            roots, rec = rnd.choice([(["t", f], True), ([f, "./" + f], rnd.random() < 0.5), ([f, f], False),
+                                     ([os.path.dirname(f) or "t", f], True)])
     return respell(roots, rnd, tree.sb.root), rec
 
 
@@ -86,7 +94,7 @@ def one_history(c, rnd, hid, max_steps, force_mode=None, force_kinds=()):
             if t in ("C", "A", "U"):
                 op["kd"] = int(rnd.random() < 0.35)
                 op["kt"] = int(rnd.random() < 0.6)
-                roots, rec = pick_roots(tree, rnd)
+                roots, rec = pick_roots(tree, rnd, overlap=(t == "U"))
                 roots = from_cwd(roots)
                 if t != "C" and op["kd"] and rnd.random() < 0.2:
                     fifo = sb.path("t", rnd.choice(["zfifo", "d/afifo", "0sock"]))
